@@ -369,7 +369,9 @@ def run(ck):
                             nontriv.add(json.dumps(["real", q[0], norm_path(q[1])]))
                         if not det:
                             amb += 1
+                            # a class the table does not decide is a finding (reported below), not a discharged obligation
                             ck.cov["discharged"] -= 1
+                            ck.cov["obligations"] -= 1
                             sig = "real-table:empty-path" if q[1] == "" else "real-table:%s %s" % (q[0], norm_path(q[1]))
                             ck.violation(sig, "the real route table does not decide %s %r independently of the map order "
                                          "(stage %s, %d candidates; model: %d vs %d for reversed order; real results %r)" % (
